@@ -236,9 +236,7 @@ Proof.
   rewrite andb_true_r. apply N.eqb_sym.
 Qed.
 
-Definition file_ok (n : bytes) (m : N) : bool :=
-  has_exec_bit m && negb (hidden n) && negb (excluded_ending n).
-
+(* file_ok (the conditions on the file itself) is defined in C20_Spec *)
 Lemma check_file_ok n m :
   check_executable_hook_file n m = None <-> file_ok n m = true.
 Proof.
